@@ -150,6 +150,26 @@ def replay_once(binary, prop, cfg, replay_path, scratch, race, tag):
     return p.returncode, (recs[0] if recs else None), tail
 
 
+def replay_range(binary, prop, cfg, v, scratch, race, tag):
+    """Re-runs the run indices range_from..index in one fresh worker process and looks for the same
+    violation at the same index (for violations that need the earlier runs of the same process)."""
+    lo, hi = int(v.get("range_from", v["index"])), int(v["index"]) + 1
+    out = "%s/range.%s.jsonl" % (scratch, tag)
+    pcfg = dict(cfg, engine=v.get("engine") or cfg["engine"])
+    if pcfg["engine"] == "cabi":
+        env2, _ = build_cabi(scratch)
+        pcfg["env"] = dict(pcfg.get("env", {}), **(env2 or {}))
+    e = worker_env(prop, pcfg, v.get("tier", "quick"), v.get("verif_seed", 1), lo, hi, out, 1200, race=race)
+    with open(out + ".log", "w") as lf:
+        subprocess.run(worker_cmd(binary), env=e, stdout=lf, stderr=subprocess.STDOUT, cwd=scratch, timeout=1800)
+    for r in read_jsonl(out):
+        if r.get("type") == "violation":
+            rp = r["replay"]
+            if rp.get("index") == v["index"] and rp.get("class") == v["class"] and rp.get("key") == v["key"]:
+                return True
+    return False
+
+
 def load_known():
     p = os.path.join(VERIF, "known_findings.json")
     if not os.path.exists(p):
@@ -200,6 +220,10 @@ def main2(prop, cfg, tier, seed, scratch, instr_stats, replay_mode, t_start):
         rp = os.path.abspath(sys.argv[3])
         rf = json.load(open(rp))
         race = bool(rf.get("race_build")) and True in binaries
+        if rf.get("mode") == "range":
+            ok = replay_range(binaries[race], prop, cfg, rf, scratch, race, "user")
+            print("replay of run indices %s..%s in one process: %s" % (rf.get("range_from"), rf.get("index"), "REPRODUCED" if ok else "NOT-REPRODUCED"))
+            return 1 if ok else 0
         code, rec, tail = replay_once(binaries[race], prop, cfg, rp, scratch, race, "user")
         if rf.get("class") == "data-race":
             ok = code == 66
@@ -334,6 +358,14 @@ def main2(prop, cfg, tier, seed, scratch, instr_stats, replay_mode, t_start):
             ok = code != 0 and rec is None
         else:
             ok = rec is not None and rec.get("class") == v["class"] and rec.get("key") == v["key"]
+        if not ok and v.get("mode") == "tapes" and v["class"] not in ("data-race", "worker-died") and int(v.get("range_from", v["index"])) < int(v["index"]):
+            # the run alone is clean: does the violation need the earlier runs of the same process
+            # (state that survives in package-level variables)?  Re-run the worker's whole range.
+            if replay_range(binaries[race], prop, cfg, v, scratch, race, "r%d" % len(seen)):
+                v["mode"] = "range"
+                v["message"] = (v.get("message") or "") + "\n(reproduces only after the earlier runs %s..%s of the same process: state survives between runs)" % (v.get("range_from"), int(v["index"]) - 1)
+                json.dump(v, open(path, "w"), indent=1)
+                ok = True
         if not ok:
             msg = "violation %s/%s (index %s) did not reproduce in a fresh process (exit %s, got %s)" % (v["class"], v["key"], v["index"], code, rec)
             if v["class"] == "worker-died" and code == 0:
